@@ -38,6 +38,9 @@ pub(crate) struct GrammarBuilder {
     terminals: BTreeMap<String, Terminal>,
     terminals_matches: BTreeMap<String, (String, TermIndex)>,
     nonterminals: BTreeMap<String, NonTerminal>,
+    /// Names of the grammar rules given by the user. Used to detect collisions
+    /// with the names of rules created for repetitions (e.g. `A1` for `A+`).
+    user_rule_names: BTreeSet<String>,
     productions: ProdVec<Production>,
     next_term_idx: TermIndex,
     next_nonterm_idx: NonTermIndex,
@@ -52,6 +55,7 @@ impl GrammarBuilder {
             terminals: BTreeMap::new(),
             terminals_matches: BTreeMap::new(),
             nonterminals: BTreeMap::new(),
+            user_rule_names: BTreeSet::new(),
             productions: ProdVec::new(),
             next_term_idx: TermIndex(0),
             next_nonterm_idx: NonTermIndex(0),
@@ -232,6 +236,8 @@ impl GrammarBuilder {
     }
 
     fn extract_productions_and_symbols(&mut self, rules: Vec<GrammarRule>) -> Result<()> {
+        self.user_rule_names = rules.iter().map(|r| r.name.as_ref().clone()).collect();
+
         // EMPTY non-terminal is implicit
         let nt_idx = self.get_nonterm_idx();
         self.nonterminals.insert(
@@ -476,6 +482,32 @@ impl GrammarBuilder {
                     }
                 }
             };
+
+            // A rule created for the repetition must not collide with a rule
+            // given by the user.
+            let check_collision = |name: &Name| -> Result<()> {
+                if self.user_rule_names.contains(name.as_ref()) {
+                    err!(
+                        format!(
+                            "Rule '{}' collides with the rule created for a repetition of '{}'.",
+                            name, ref_type
+                        ),
+                        Some(self.file.clone()),
+                        ref_type.span
+                    )?
+                }
+                Ok(())
+            };
+            match op.rep_op {
+                RepetitionOperatorOp::ZeroOrMore => {
+                    check_collision(&nt_name(&ref_type, &RepetitionOperatorOp::OneOrMore))?;
+                    check_collision(&nt_name(&ref_type, &op.rep_op))?;
+                }
+                RepetitionOperatorOp::OneOrMore | RepetitionOperatorOp::Optional => {
+                    check_collision(&nt_name(&ref_type, &op.rep_op))?;
+                }
+                _ => {}
+            }
 
             match op.rep_op {
                 RepetitionOperatorOp::ZeroOrMore => {
